@@ -334,3 +334,78 @@ def sym_try_flow(xs, ys):
         finally:
             out.add(100)
     return out
+
+
+def sym_iter_stack_dfs(xs, ys):
+    # reachability with an explicit stack of iterators and next(it, None) as the exhausted sentinel
+    succ = {0: {1, 2}, 1: {3}, 2: set(), 3: {0}}
+    seen = set()
+    stack = [iter(xs)]
+    while stack:
+        s = next(stack[-1], None)
+        if s is None:
+            stack.pop()
+            continue
+        if s in seen or s in ys:
+            continue
+        seen.add(s)
+        stack.append(iter(succ[s]))
+    return seen
+
+
+def sym_reversed_queue(xs, ys):
+    queue = [0]
+    met = {0}
+    i = 0
+    succ = {0: [1, 2], 1: [3], 2: [3], 3: []}
+    while i < len(queue):
+        v = queue[i]
+        i += 1
+        for w in succ[v]:
+            if w not in met and w in xs:
+                met.add(w)
+                queue.append(w)
+    out = []
+    cache = {}
+    for v in reversed(queue):
+        cache[v] = sum(cache.get(w, 0) for w in succ[v]) + (1 if v in ys else 0)
+        out.append(v)
+    return (out, cache[0], len(queue))
+
+
+class _Box(object):
+    pass
+
+
+def sym_getattr_default(xs, ys):
+    counter = [0]
+    boxes = []
+    for x in xs:
+        b = _Box()
+        if x in ys:
+            b.tag = x
+            counter[0] += 1
+        boxes.append(b)
+    tags = [getattr(b, 'tag', -1) for b in boxes]
+    return (tags, counter[0], [hasattr(b, 'tag') for b in boxes])
+
+
+_mode = None
+_calls = 0
+
+
+def _set_mode(m):
+    global _mode, _calls
+    _calls += 1
+    if m is not None:
+        _mode = m
+
+
+def sym_global_state(xs, ys):
+    global _mode, _calls
+    _mode, _calls = None, 0
+    out = []
+    for v in (0, 1, 2, 3):
+        _set_mode(v if v in xs else None)
+        out.append(_mode if v in ys else -1)
+    return (out, _calls, _mode)
